@@ -144,33 +144,38 @@ def fsLoop : Nat → St → Nat → Nat → St × Nat × Nat
       fsLoop f st (p - 4) sig2
     else (st, p, sig2)
 
-/-- `FormatSignificand(sig, out, cnt)`: returns the state and the returned pointer `out + cnt - ctz` -/
-def formatSignificand (st : St) (sig out cnt : Nat) : St × Nat :=
-  let p := out + cnt
-  -- if ((sig >> 32) != 0)
-  let r1 : St × Nat × Nat × Nat :=     -- (state, p, sig, ctz)
-    if sig / 2 ^ 32 ≠ 0 then
-      let q := sig / 100000000
-      let r := (sig % 2 ^ 32 + 2 ^ 32 - 100000000 * (q % 2 ^ 32) % 2 ^ 32) % 2 ^ 32
-      if r ≠ 0 then
-        let c := r % 10000
-        let r := r / 10000
-        let d := r % 10000
-        let st := st.c2 (p - 2) ((c % 100) * 2)
-        let st := st.c2 (p - 4) ((c / 100) * 2)
-        let st := st.c2 (p - 6) ((d % 100) * 2)
-        let st := st.c2 (p - 8) ((d / 100) * 2)
-        (st, p - 8, q, 0)
-      else (st, p - 8, q, 8)
-    else (st, p, sig, 0)
-  let st := r1.1; let p := r1.2.1; let sig := r1.2.2.1; let ctz := r1.2.2.2
-  let r2 := fsLoop 3 st p (sig % 2 ^ 32)
-  let st := r2.1; let p := r2.2.1; let sig2 := r2.2.2
+/-- first block of `FormatSignificand`: `if ((sig >> 32) != 0) { … }`; returns `(state, p, sig, ctz)` -/
+def fsHead (st : St) (sig p : Nat) : St × Nat × Nat × Nat :=
+  if sig / 2 ^ 32 ≠ 0 then
+    let q := sig / 100000000
+    let r := (sig % 2 ^ 32 + 2 ^ 32 - 100000000 * (q % 2 ^ 32) % 2 ^ 32) % 2 ^ 32
+    if r ≠ 0 then
+      let c := r % 10000
+      let r := r / 10000
+      let d := r % 10000
+      let st := st.c2 (p - 2) ((c % 100) * 2)
+      let st := st.c2 (p - 4) ((c / 100) * 2)
+      let st := st.c2 (p - 6) ((d % 100) * 2)
+      let st := st.c2 (p - 8) ((d / 100) * 2)
+      (st, p - 8, q, 0)
+    else (st, p - 8, q, 8)
+  else (st, p, sig, 0)
+
+/-- last block of `FormatSignificand` (after the `while` loop): the remaining 1..4 digits -/
+def fsTail (st : St) (out p sig2 : Nat) : St :=
   let r3 : St × Nat × Nat :=
     if sig2 ≥ 100 then (st.c2 (p - 2) ((sig2 % 100) * 2), p - 2, sig2 / 100) else (st, p, sig2)
-  let st := r3.1; let p := r3.2.1; let sig2 := r3.2.2
-  let st := if sig2 ≥ 10 then st.c2 (p - 2) (sig2 * 2) else st.w out ((48 + sig2) % 256)
-  (st, out + cnt - ctz)
+  if r3.2.2 ≥ 10 then r3.1.c2 (r3.2.1 - 2) (r3.2.2 * 2) else r3.1.w out ((48 + r3.2.2) % 256)
+
+/-- `uint32_t sig2 = (uint32_t)sig; while … ; if … ; if … else …` -/
+def fsLow (st : St) (out p sig : Nat) : St :=
+  let r2 := fsLoop 3 st p (sig % 2 ^ 32)
+  fsTail r2.1 out r2.2.1 r2.2.2
+
+/-- `FormatSignificand(sig, out, cnt)`: returns the state and the returned pointer `out + cnt - ctz` -/
+def formatSignificand (st : St) (sig out cnt : Nat) : St × Nat :=
+  let r1 := fsHead st sig (out + cnt)
+  (fsLow r1.1 out r1.2.1 r1.2.2.1, out + cnt - r1.2.2.2)
 
 /-- `while (*(end - 1) == '0') end--;` (at most 17 digits were written, fuel 17 is passed) -/
 def trimZeros (b : Buf) : Nat → Nat → Nat
